@@ -44,11 +44,6 @@ Fixpoint path_eqb (a b : path) : bool :=
   end.
 
 Definition fsys := list (path * bytes).
-Fixpoint fs_get (fs : fsys) (p : path) : option bytes :=
-  match fs with
-  | [] => None
-  | (q, c) :: t => if path_eqb q p then Some c else fs_get t p
-  end.
 
 (** ** helpers of validate *)
 Fixpoint has_dup (l : list bytes) : bool :=
